@@ -531,6 +531,22 @@ theorem wideRatio_never_wraps (cx : Ctx) (version : Nat) (hv : 5 ≤ version) (n
     rw [hrun] at hm
     cases hm
 
+/-- a WideRatio that returns leaves ONE value that is again a legal factor (below 2^64) and nothing else changed: a ratio may be used
+    as a factor of another ratio, and the outer ratio then is taken over the inner QUOTIENT (its floor and its 64-bit limit included) --
+    the hypotheses `hN` / `hD` of the outer instance are met by the inner result -/
+theorem wideRatio_result_is_factor (cx : Ctx) (version : Nat) (hv : 5 ≤ version) (ns ds : List Nat)
+    (hn : ns ≠ []) (hd : ds ≠ []) (hshape : ¬ (ns.length = 1 ∧ ds.length = 1))
+    (hN : ∀ v ∈ ns, v < 2 ^ 64) (hD : ∀ v ∈ ds, v < 2 ^ 64)
+    (items : List Item) (hi : wideRatio? version ns.length ds.length = .ok items)
+    (w w' : World) (σ st : List Val) (hrun : runItems cx ns ds items w σ = .ok (st, w')) :
+    ∃ q, st = .u q :: σ ∧ q < 2 ^ 64 ∧ q = prodL ns / prodL ds ∧ w' = w := by
+  obtain ⟨h1, h2, h3⟩ := wideRatio_never_wraps cx version hv ns ds hn hd hshape hN hD items hi w w' σ st hrun
+  exact ⟨_, h1, h3.2.2.2, rfl, h2⟩
+
+/-- nested use, on values: the outer ratio over `[inner quotient, d]` / `[e]` where the inner ratio is `[a, b] / [c]`: the result is
+    floor(floor(a*b/c) * d / e), NOT floor(a*b*d / (c*e)) -- the two differ (7*1/2 = 3, 3*2/1 = 6, but 7*1*2/(2*1) = 7) -/
+example : (7 * 1 / 2) * 2 / 1 = 6 ∧ 7 * 1 * 2 / (2 * 1) = 7 := by decide
+
 /-! ### Non-vacuity: concrete, non-trivial instances -/
 
 /-- 3 numerators / 2 denominators whose 128-bit intermediate exceeds 64 bits: all hypotheses hold -/
